@@ -205,6 +205,12 @@ def handle (cmd : String) (args : List String) : String :=
     | some h => s!"ok a={toHex (Fp.Spec.JA4.partA h)} b=sha12of:{toHex (Fp.Spec.JA4.partBInput h)} c=sha12of:{toHex (Fp.Spec.JA4.partCInput h)}"
     | none => "bad-op"
   | "survive", _ => "alive=1 control=ok"   -- C10: the process survives and other connections are served
+  | "shutdown", toks =>
+    -- C17: Serve returns ErrServerClosed promptly, listener closed, nothing served afterwards, idle h1 closed,
+    -- an in-flight HTTP/1.1 exchange completes and Serve waits for it
+    let infl := (kv toks "inflight") == some "1" && (kv toks "early") != some "1"
+    "ret=errclosed fast=1 listener=closed post=refused h1idle=closed inflight=" ++ (if infl then "done" else "n/a") ++
+      " drain=" ++ (if infl then "ok" else "n/a")
   | "life", _ => "closed=1 released=1"    -- C11: the proxy cut / released the connection
   | "metrics", toks => (metricsSpec toks).getD "bad-op"
   | "e2e", toks => (e2eExpected toks).getD "bad-op"
